@@ -4,6 +4,7 @@ its own property (and all others) on a scratch copy; print a table."""
 import glob, json, os, shutil, subprocess, sys, tempfile
 sys.path.insert(0, os.path.dirname(os.path.dirname(os.path.abspath(__file__))))
 from s3tlint import engine, rules
+from s3tlint.ir import Program, AnalysisError
 from s3tlint.props import PROPS
 rules.load_all()
 rows = []
@@ -18,8 +19,9 @@ for d in sorted(glob.glob('/verif/seeded/C*-*')):
             rows.append((name, 'PATCH-FAILS', '', ''))
             continue
         own, others, errs = [], [], []
+        prog = Program.load(tmp)
         for p in sorted(PROPS):
-            code, ctx, viol = engine.run_property(p, 'quick', repo=tmp, write=False, quiet=True)
+            code, ctx, viol = engine.run_property(p, 'quick', program=prog, write=False, quiet=True)
             rs = sorted({o.rule for o in viol})
             if p == prop:
                 own = rs
